@@ -353,6 +353,8 @@ def _r_list(root: Any, op: dict, a: Action, idx: Any) -> Action:
     if op.get('misfit'):
         a.syntax_ok = False
     a._run = lambda: wrapper_call(w, name, i, j, k, new, cur)
+    if name == 'iadd' and op.get('stmt'):
+        a._run = lambda: setattr(P, p.name, getattr(P, p.name).__iadd__(new))   # model.raw_xs += [...] as the statement does it
     return a
 
 
@@ -419,6 +421,8 @@ def _r_view(root: Any, op: dict, a: Action, idx: Any) -> Action:
     if op.get('misfit'):
         a.syntax_ok = False
     a._run = lambda: wrapper_call(w, name, i, j, k, new, cur)
+    if name == 'iadd' and op.get('stmt'):
+        a._run = lambda: setattr(P, p.name, getattr(P, p.name).__iadd__(new))   # model.tags += [...] as the statement does it
     return a
 
 
@@ -612,6 +616,39 @@ def _r_popins(root: Any, op: dict, a: Action, idx: Any) -> Action:
 ARITH_OPS = ['+=', '-=', '*=', '/=']
 
 
+def holder_of(root: Any, e: Any) -> Optional[tuple]:
+    """Where a node is held: ('attr', model, property name) or ('item', wrapper, index) - found through the public properties."""
+    for ms in index_models(root).values():
+        for m in ms:
+            for p in S.props_of(m):
+                try:
+                    if p.kind in ('opt', 'req', 'copt', 'uopt') and getattr(m, p.name) is e:
+                        return ('attr', m, p.name)
+                    if p.kind in ('list', 'clist'):
+                        w = getattr(m, p.name)
+                        for i, x in enumerate(w):
+                            if x is e:
+                                return ('item', w, i)
+                except Exception:  # noqa: BLE001
+                    continue
+    return None
+
+
+def inplace_statement(holder: tuple, op: str, operand: Any) -> Any:
+    """`holder.attr op= operand` / `wrapper[i] op= operand` exactly as the Python statement does it: read, in-place operator, store back."""
+    import operator
+    f = {'+=': operator.iadd, '-=': operator.isub, '*=': operator.imul, '/=': operator.itruediv}[op]
+    if holder[0] == 'attr':
+        _, m, name = holder
+        r = f(getattr(m, name), operand)
+        setattr(m, name, r)
+    else:
+        _, w, i = holder
+        r = f(w[i], operand)
+        w[i] = r
+    return r
+
+
 def _r_arith(root: Any, op: dict, a: Action, idx: Any) -> Action:
     e = find_model(root, 'NumberExpr', op['mi'], idx)
     v = op['operand']
@@ -629,8 +666,13 @@ def _r_arith(root: Any, op: dict, a: Action, idx: Any) -> Action:
     a.P, a.changed, a.structural, a.prop, a.shape = e, [e], False, op['op'], op['op'] + ':' + v['vt']
     a.ref['operand'] = operand
 
+    holder = holder_of(root, e) if op.get('stmt') else None
+
     def run() -> None:
         x = e
+        if holder is not None:
+            a.ref['result'] = inplace_statement(holder, op['op'], operand)
+            return
         if op['op'] == '+=':
             x += operand
         elif op['op'] == '-=':
@@ -943,6 +985,8 @@ def gen_for(g: L.G, root: Any, m: Any, p: S.Prop, cname: str, mi: int, shape: Op
 
 def _gen_listop(g: L.G, fam: str, base_op: dict, name: str, n: int, donor: Callable[[], Any], misfit: bool) -> Optional[dict]:
     op: dict = {'f': fam, **base_op, 'op': name}
+    if name == 'iadd':
+        op['stmt'] = g.p(0.5)
     if name in ('insert', 'pop', 'del', 'set', 'remove', 'discard'):
         op['i'] = gen_index(g, n)
     if name in ('delslice', 'setslice'):
@@ -1107,7 +1151,7 @@ def propose(g: L.G, root: Any, families: list[str], misfit_prob: float = 0.0, ho
             operand = {'vt': 'dec', 'v': str(D.decimal_value(g))}
         else:
             operand = {'vt': 'expr', 'v': L.text_of([g.number_expr()])}
-        return {'f': 'arith', 'mi': g.n(0, len(es) - 1), 'op': g.pick(ARITH_OPS), 'operand': operand}
+        return {'f': 'arith', 'mi': g.n(0, len(es) - 1), 'op': g.pick(ARITH_OPS), 'operand': operand, 'stmt': g.p(0.5)}
     return None
 
 
